@@ -22,7 +22,7 @@ func init() {
 		Level: "exploration",
 		Rule: "exhaustive enumeration of finite input spaces: (a) all (x,mask) pairs confined to a 14-bit (quick) / 16-bit (thorough) lane at each of 4 lane positions plus all 1- and 2-bit masks x walking-bit inputs, generic vs BMI2 vs a bit-loop reference; " +
 			"(b) single-chunk codec for every half-mask of the mode's weight with ones inside a (weight+6)-bit window placed low and high (quick) / every 32-bit half-mask (thorough) x 2 padding bits x source patterns; (c) multi-chunk bodies of length 1..3C+1 and the 32764/32765/32768 boundaries x 31 rotations x masks; " +
-			"(d) every 1- and 2-bit corruption and every metadata perturbation of encodings of short bodies: accepted implies canonical. distinct = distinct inputs; non-trivial = all (each input is checked against the reference)",
+			"(d) every 1- and 2-bit corruption and every metadata perturbation of encodings of short bodies, encodings with -17..+17 bytes removed / appended (decoder and receiver path), 136/200-chunk bodies whose padding polarity changes at every chunk boundary and 70-chunk bodies with every pair of changes: accepted implies canonical. distinct = distinct inputs; non-trivial = all (each input is checked against the reference)",
 		Assumptions: []string{
 			"source values are drawn from fixed patterns (00, ff, walking bit, counter, xorshift) rather than all 2^(8C) values per chunk; masks and rotations are exhaustive as stated",
 			"the reference codec is written bit by bit from docs/protocol.md and imports nothing from mieru",
@@ -490,6 +490,94 @@ func units(tier string) []runner.Unit {
 							u.NotExhaustive("budget")
 							goto meta
 						}
+					}
+				}
+			}
+			// (d2) the decoder itself (below the metadata validation) and the receiver's path, offered
+			// byte strings of the wrong length and long bodies whose padding polarity changes at
+			// every chunk boundary (one change, and every pair of changes)
+			{
+				raw := func(body []byte, n int, rot uint8, what string) bool {
+					cnt++
+					d, err := protocol.VerifLEDecode(body, n, mode, half, rot)
+					if err != nil {
+						return true
+					}
+					accepted++
+					for pad := uint8(0); pad <= 1; pad++ {
+						if bytes.Equal(refEncode(d, mode, half, rot, pad), body) {
+							return true
+						}
+					}
+					u.Violation("C17/non-canonical-accepted", fmt.Sprintf("%s: the decoder accepted a %d-byte string (mode %d, mask %08x, rot %d, extracted %d) that the encoder does not produce for the decoded %d-byte body with either padding polarity: %x", what, len(body), mode, half, rot, n, len(d), head(body)), "", "")
+					return false
+				}
+				for _, n := range []int{1, c, c + 1, 3 * c, 9*c + 1} {
+					for _, rot := range []uint8{0, 3, 48} {
+						for pad := uint8(0); pad <= 1; pad++ {
+							enc := refEncode(sources(n)[4], mode, half, rot, pad)
+							for delta := -17; delta <= 17; delta++ {
+								if delta == 0 || len(enc)+delta < 0 {
+									continue
+								}
+								for fill := 0; fill < 3; fill++ {
+									var b []byte
+									if delta < 0 {
+										if fill > 0 {
+											continue
+										}
+										b = enc[:len(enc)+delta]
+									} else {
+										ext := make([]byte, delta)
+										for i := range ext {
+											ext[i] = []byte{0x00, 0xff, enc[i%len(enc)]}[fill]
+										}
+										b = append(append([]byte(nil), enc...), ext...)
+									}
+									what := fmt.Sprintf("encoding of a %d-byte body with %+d bytes", n, delta)
+									if !raw(b, n, rot, what) {
+										return
+									}
+									if len(b) > 0 && !canonical(append(append([]byte(nil), b...), tag...), n, rot, what+" (receiver path)") {
+										return
+									}
+								}
+							}
+						}
+					}
+				}
+				chunks := 200
+				if tier == "quick" {
+					chunks = 136
+				}
+				for _, rot := range []uint8{0, 1, 15, 16, 240} {
+					n := chunks*c - 1
+					src := sources(n)[4]
+					e := [2][]byte{refEncode(src, mode, half, rot, 0), refEncode(src, mode, half, rot, 1)}
+					for first := 0; first <= 1; first++ {
+						for s1 := 1; s1 < chunks; s1++ {
+							mixed := append(append([]byte(nil), e[first][:8*s1]...), e[1-first][8*s1:]...)
+							what := fmt.Sprintf("%d chunks, padding polarity %d up to chunk %d and %d from there", chunks, first, s1, 1-first)
+							if !raw(mixed, n, rot, what) || !canonical(append(mixed, tag...), n, rot, what+" (receiver path)") {
+								return
+							}
+						}
+						// two changes: every pair of chunk boundaries of a 70-chunk body
+						m := 70*c - 1
+						src2 := sources(m)[4]
+						f := [2][]byte{refEncode(src2, mode, half, rot, 0), refEncode(src2, mode, half, rot, 1)}
+						for s1 := 1; s1 < 70; s1++ {
+							for s2 := s1 + 1; s2 < 70; s2++ {
+								mixed := append(append(append([]byte(nil), f[first][:8*s1]...), f[1-first][8*s1:8*s2]...), f[first][8*s2:]...)
+								if !raw(mixed, m, rot, fmt.Sprintf("70 chunks, padding polarity %d except chunks %d..%d", first, s1, s2-1)) {
+									return
+								}
+							}
+						}
+					}
+					if u.Expired() {
+						u.NotExhaustive("budget")
+						break
 					}
 				}
 			}
